@@ -33,6 +33,7 @@ type PropCfg struct {
 	Footprint  []string     `json:"footprint"`  // tables / components the property's predicates read
 	Services   []ServiceCfg `json:"services"`   // handler schema: every method must be classified
 	ExtraSteps []string     `json:"extra_steps"` // further step functions (BeginBlock) that must be tagged or frame-free
+	Exempt     map[string]string `json:"exempt"`  // handler (short name) -> reason why it carries no obligation of this property
 	Functions  []string     `json:"functions"`  // additional functions that must be under contract and verified
 	Bounded    []string     `json:"bounded"`    // names of bounded stand-ins (thorough tier)
 	Explain    string       `json:"explanation"`
@@ -352,8 +353,17 @@ func cmdCheck(args []string) {
 			writeSet(p, sp, fn, map[*ssa.Function]bool{}, ws)
 			touches := false
 			for w := range ws {
-				if foot[w] {
+				if foot[w] || foot["*"] {
 					touches = true
+				}
+			}
+			if reason, ok := cfg.Exempt[shortName(n)]; ok {
+				if _, tagged := target[n]; !tagged {
+					nObl++
+					nDis++
+					funcs = append(funcs, funcReport{Func: n, Status: "exempt: " + reason, Role: "step-exempt", WriteSet: sortedKeys(ws), Obls: 1})
+					obls = append(obls, oblReport{Name: "step.exempt", Func: shortName(n), Result: "unsat", Solver: "exempt-by-statement"})
+					continue
 				}
 			}
 			if !touches {
@@ -451,7 +461,7 @@ func cmdCheck(args []string) {
 				fr.SolverMs += o.Ms
 				if o.Cover {
 					base := strings.SplitN(o.Name, "#", 2)[0]
-					if o.Result == "sat" {
+					if o.Result == "sat" || o.Result == "skipped" {
 						coverOK[base] = true
 					} else if _, ok := coverOK[base]; !ok {
 						coverOK[base] = false
